@@ -169,6 +169,16 @@ func reach(obj interface{}) map[uintptr]region {
 	return w.out
 }
 
+func graphSig(m map[uintptr]region) string {
+	keys := make([]string, 0, len(m))
+	for p, r := range m {
+		keys = append(keys, fmt.Sprintf("%x:%d:%s", p, r.size, r.kind))
+	}
+	sort.Strings(keys)
+	h := sha256.Sum256([]byte(strings.Join(keys, ",")))
+	return hex.EncodeToString(h[:8])
+}
+
 func hashRegion(r region) string {
 	h := sha256.New()
 	switch r.kind {
@@ -280,6 +290,7 @@ type event struct {
 	NShared    int      `json:"nshared"`
 	Written    []string `json:"written"`
 	OrigIntact bool     `json:"origintact"`
+	OrigGraph  bool     `json:"origgraph"`
 	Panic      bool     `json:"panic"`
 	Msg        string   `json:"msg,omitempty"`
 	Sched      string   `json:"sched,omitempty"`
@@ -303,7 +314,7 @@ func runOp(o op, obj interface{}) (res string, errd bool, msg string) {
 
 // probe compares one copy with its original.
 func probe(s *subject, ck copyKind) (e event) {
-	e = event{Ev: "copy", Subject: s.name, Kind: ck.name, Concurrent: ck.concurrent, Deep: ck.deep, Ops: []opRes{}, Written: []string{}, OrigIntact: true}
+	e = event{Ev: "copy", Subject: s.name, Kind: ck.name, Concurrent: ck.concurrent, Deep: ck.deep, Ops: []opRes{}, Written: []string{}, OrigIntact: true, OrigGraph: true}
 	defer func() {
 		if r := recover(); r != nil {
 			e.Panic, e.Msg = true, fmt.Sprint(r)
@@ -315,7 +326,10 @@ func probe(s *subject, ck copyKind) (e event) {
 	for i, o := range s.ops {
 		first[i], firstErr[i], _ = runOp(o, s.orig)
 	}
+	// deriving a copy leaves the original's object graph as it was (the same backing arrays and maps are reachable)
+	g0 := graphSig(reach(s.orig))
 	cp := ck.mk(s.orig)
+	e.OrigGraph = graphSig(reach(s.orig)) == g0
 	sh := shared(reach(s.orig), reach(cp))
 	e.NShared = len(sh)
 	before := make([]string, len(sh))
@@ -1122,7 +1136,7 @@ func Main(args []string) int {
 		// multiparty protocols: party 1 uses the original, party 2 a shallow copy
 		for _, pe := range c16.CopyProbe() {
 			prog++
-			e := event{Ev: "copy", Prog: prog, Subject: pe.Subject, Kind: "ShallowCopy", Concurrent: true, Ops: []opRes{}, Written: []string{}, OrigIntact: true, Panic: pe.Panic, Msg: pe.Msg}
+			e := event{Ev: "copy", Prog: prog, Subject: pe.Subject, Kind: "ShallowCopy", Concurrent: true, Ops: []opRes{}, Written: []string{}, OrigIntact: true, OrigGraph: true, Panic: pe.Panic, Msg: pe.Msg}
 			for _, o := range pe.Ops {
 				e.Ops = append(e.Ops, opRes{Op: o.Op, Eq: o.Eq, Again: true, Msg: o.Msg})
 			}
